@@ -4,7 +4,9 @@ from vcheck import Case, hx, flist, parse_vals
 
 PID = "C11"
 EPS = 2.0 ** -53
-RULE = ("one case = one call (fmin | fmax | fpair | nm | nmd | nm1 with objective, start, step/tolerance); non-trivial = a Nelder-Mead run with at least 12 "
+RULE = ("one case = one call (fmin | fmax | fpair | nm | nmd | nm1 with objective, start, step/tolerance), or a run of calls in one process on one or several "
+        "Minimization objects with 1-D calls in between (seq; non-trivial = at least two calls returned and 24 evaluations), or an outer call whose objective runs a "
+        "minimisation itself (nest; non-trivial like the outer call); non-trivial = a Nelder-Mead run with at least 12 "
         "objective evaluations after the initial simplex (such runs contain reflections, expansions and contractions; shrinks are rarer and are counted in the "
         "evidence's input distribution only through the traces), or a 1-D run with at least one downhill bracketing step beyond the first three evaluations and at least "
         "4 Brent iterations (golden and parabolic steps both occur), or a guard request that exits; distinct by case text")
@@ -13,11 +15,15 @@ LEVEL_TEXT = ("Theorems (Coq, abstract number type with only the laws of a total
               "fb <= both starting values on every exit path; Brent keeps fx = f(x), never increases fx, and returns f_min = f(x_min) <= f(bx); hence Find_Minimum's result "
               "is not worse than either starting abscissa; Find_Maximum is Find_Minimum of -1.0*f (and over R its result is not below either starting value); Nelder-Mead keeps "
               "y[i] = f(simplex[i]) in every iteration, its best value never increases, and on return fmin = y[0] = f(returned point) = f(simplex[0]), y[0] <= every y[i] and "
-              "<= f at every initial vertex; the two convenience overloads build the stated simplex (and reject mismatched lengths). "
+              "<= f at every initial vertex; the two convenience overloads build the stated simplex (and reject mismatched lengths); a call on a Minimization object in ANY state "
+              "gives the answer of a fresh object, and so does every call of a run of calls on one object (call history: mpts, ndim, simplex, y are assigned before they are read, nfunc is reset). "
               "NOT theorems: convergence to the minimiser within the tolerance (Nelder-Mead has no such theorem; Brent's is a real-analysis result for exactly unimodal f). "
               "These clauses are decided on the implementation (S4) on the quantifier's classes: quadratic bowls with condition number up to 1e4 in 1..6 dimensions, quartic-flat, "
               "cosh-like, Morse and Lennard-Jones-like 1-D wells, random starts, scales 1e-3..1e3, tolerances 1e-3..1e-12, with the a-priori distance bounds written next to the predicates; "
-              "descent and consistency are also replayed exactly (bit for bit, the objective re-evaluated in Python) on multimodal sin/cos mixtures.")
+              "descent and consistency are also replayed exactly (bit for bit, the objective re-evaluated in Python) on multimodal sin/cos mixtures. "
+              "Also driven: 1-D bowls whose values overflow to +inf at visited points (far starts, steep bowls, repulsive walls); runs of 2..60 calls on shared objects "
+              "(every answer compared with a fresh object's, evaluation counts passing NMAX); profiled objectives F(x) = min_z g(x,z) whose evaluation runs Nelder-Mead "
+              "(fresh or reused inner object) or Find_Minimum inside the outer run (re-entrancy), judged on the values the objective returned during and after the run.")
 LEVEL_NOTE = ("Coq 8.16.1 kernel; order-theoretic theorems are axiom-free (OrdLaws: total order on the objective's values, i.e. NaN-free objectives); find_maximum_not_worse is over R; "
               "hand-written model tied by differential correspondence including the full evaluation traces (bit-identical expected); the bracketing loop of the source has no iteration cap "
               "(model fuel 1000 -> FUEL), Brent's ITMAX = 100 and Nelder-Mead's NMAX = 5000 exits are modelled as EXIT; "
@@ -451,7 +457,7 @@ def _parse_seq_out(calls, v):
         if v[p] != "C": raise ValueError("seq output: call marker expected")
         p += 1
         if cl["op"] in ("fmin", "fmax"):
-            x = v[p]; tr, p = _rd_list(v, p + 1); outs.append({"x": x, "trace": tr})
+            x = v[p]; tr, p = _rd_list(v, p + 1); outs.append({"x": x, "trace": tr, "same": v[p]}); p += 1
         else:
             pmin, p = _rd_list(v, p); fmin = v[p]; p += 1
             y, p = _rd_list(v, p); simplex, p = _rd_table(v, p); nfunc = v[p]; p += 1
@@ -676,6 +682,7 @@ def _pred_seq(c, io):
         if cl["op"] in ("fmin", "fmax"):
             sense = 1 if cl["op"] == "fmin" else -1
             pv = _pred_1d(c, io, cl, o["x"], o["trace"], sense, cl["op"])
+            if o["same"] != 1: pv.append(("seq:repeatable", "the identical 1-D request, made again at once, gave a different answer or evaluated other points"))
             if info.get("kind") and not pv:
                 x = o["x"]; tol1 = abs(cl["tol"]) * abs(x) + 2.0 ** -52
                 dist = min(abs(x - xs) for xs in info["xstar"]); bound = 2 * tol1 + info["res"](x)
